@@ -2271,45 +2271,12 @@ impl StorageEngine {
             }
         }
         
-        all_keys.sort();
+        let (next_cursor, window) = scan_window(all_keys, |key| key.as_slice(), cursor, max_scan_count);
         
-        let start_pos = if cursor == 0 { 0 } else { cursor as usize };
-        if start_pos >= all_keys.len() && !all_keys.is_empty() {
-            return Ok((0, Vec::new()));
-        }
-        
-        let mut matching_keys = Vec::new();
-        let mut keys_examined = 0;
-        let mut current_pos = start_pos;
-        
-        
-        while keys_examined < max_scan_count * 10 && matching_keys.len() < max_scan_count {
-            if current_pos >= all_keys.len() {
-                break;
-            }
-            
-            let key = &all_keys[current_pos];
-            let mut include_key = true;
-            
-            if let Some(pat) = pattern {
-                if !pattern_matches(pat, key) {
-                    include_key = false;
-                }
-            }
-            
-            if include_key {
-                matching_keys.push(key.clone());
-            }
-            
-            current_pos += 1;
-            keys_examined += 1;
-        }
-        
-        let next_cursor = if current_pos >= all_keys.len() {
-            0
-        } else {
-            current_pos as u64
-        };
+        let matching_keys: Vec<Vec<u8>> = window
+            .into_iter()
+            .filter(|key| pattern.map_or(true, |pat| pattern_matches(pat, key)))
+            .collect();
         
         Ok((next_cursor, matching_keys))
     }
@@ -2331,49 +2298,25 @@ impl StorageEngine {
                     return Ok((0, result));
                 }
                 
-                let mut fields: Vec<Vec<u8>> = hash.keys().cloned().collect();
-                fields.sort();
-                
-                let start_pos = if cursor == 0 { 0 } else { cursor as usize };
-                if start_pos >= fields.len() && !fields.is_empty() {
-                    return Ok((0, Vec::new()));
-                }
+                let fields: Vec<Vec<u8>> = hash.keys().cloned().collect();
+                let (next_cursor, window) = scan_window(fields, |field| field.as_slice(), cursor, max_scan_count);
                 
                 let mut result = Vec::new();
-                let mut fields_examined = 0;
-                let mut current_pos = start_pos;
-                        
-                while fields_examined < max_scan_count * 10 && (result.len() / if no_values { 1 } else { 2 }) < max_scan_count {
-                    if current_pos >= fields.len() {
-                        break;
-                    }
-                    
-                    let field = &fields[current_pos];
-                    let mut include_field = true;
-                    
+                for field in window {
                     if let Some(pat) = pattern {
-                        if !pattern_matches(pat, field) {
-                            include_field = false;
+                        if !pattern_matches(pat, &field) {
+                            continue;
                         }
                     }
                     
-                    if include_field {
-                        result.push(field.clone());
-                        if !no_values {
-                            let value = hash.get(field).unwrap();
-                            result.push(value.clone());
-                        }
+                    if !no_values {
+                        let value = hash.get(&field).unwrap().clone();
+                        result.push(field);
+                        result.push(value);
+                    } else {
+                        result.push(field);
                     }
-                    
-                    current_pos += 1;
-                    fields_examined += 1;
                 }
-                
-                let next_cursor = if current_pos >= fields.len() {
-                    0
-                } else {
-                    current_pos as u64
-                };
                 
                 Ok((next_cursor, result))
             },
@@ -2396,45 +2339,13 @@ impl StorageEngine {
                     return Ok((0, set.iter().cloned().collect()));
                 }
                 
-                let mut members: Vec<Vec<u8>> = set.iter().cloned().collect();
-                members.sort();
+                let members: Vec<Vec<u8>> = set.iter().cloned().collect();
+                let (next_cursor, window) = scan_window(members, |member| member.as_slice(), cursor, max_scan_count);
                 
-                let start_pos = if cursor == 0 { 0 } else { cursor as usize };
-                if start_pos >= members.len() && !members.is_empty() {
-                    return Ok((0, Vec::new()));
-                }
-                
-                let mut result = Vec::new();
-                let mut members_examined = 0;
-                let mut current_pos = start_pos;
-                        
-                while members_examined < max_scan_count * 10 && result.len() < max_scan_count {
-                    if current_pos >= members.len() {
-                        break;
-                    }
-                    
-                    let member = &members[current_pos];
-                    let mut include_member = true;
-                    
-                    if let Some(pat) = pattern {
-                        if !pattern_matches(pat, member) {
-                            include_member = false;
-                        }
-                    }
-                    
-                    if include_member {
-                        result.push(member.clone());
-                    }
-                    
-                    current_pos += 1;
-                    members_examined += 1;
-                }
-                
-                let next_cursor = if current_pos >= members.len() {
-                    0
-                } else {
-                    current_pos as u64
-                };
+                let result: Vec<Vec<u8>> = window
+                    .into_iter()
+                    .filter(|member| pattern.map_or(true, |pat| pattern_matches(pat, member)))
+                    .collect();
                 
                 Ok((next_cursor, result))
             },
@@ -2459,48 +2370,16 @@ impl StorageEngine {
                     items.push((member, score));
                 }
                 
-                items.sort_by(|a, b| a.0.cmp(&b.0));
-                
                 if items.len() <= max_scan_count && cursor == 0 && pattern.is_none() {
                     return Ok((0, items));
                 }
                 
-                let start_pos = if cursor == 0 { 0 } else { cursor as usize };
-                if start_pos >= items.len() && !items.is_empty() {
-                    return Ok((0, Vec::new()));
-                }
+                let (next_cursor, window) = scan_window(items, |item| item.0.as_slice(), cursor, max_scan_count);
                 
-                let mut result = Vec::new();
-                let mut items_examined = 0;
-                let mut current_pos = start_pos;
-                        
-                while items_examined < max_scan_count * 10 && result.len() < max_scan_count {
-                    if current_pos >= items.len() {
-                        break;
-                    }
-                    
-                    let (member, score) = &items[current_pos];
-                    let mut include_item = true;
-                    
-                    if let Some(pat) = pattern {
-                        if !pattern_matches(pat, member) {
-                            include_item = false;
-                        }
-                    }
-                    
-                    if include_item {
-                        result.push((member.clone(), *score));
-                    }
-                    
-                    current_pos += 1;
-                    items_examined += 1;
-                }
-                
-                let next_cursor = if current_pos >= items.len() {
-                    0
-                } else {
-                    current_pos as u64
-                };
+                let result: Vec<(Vec<u8>, f64)> = window
+                    .into_iter()
+                    .filter(|(member, _)| pattern.map_or(true, |pat| pattern_matches(pat, member)))
+                    .collect();
                 
                 Ok((next_cursor, result))
             },
@@ -2706,6 +2585,41 @@ mod tests {
         // All should succeed without any access time tracking overhead
         assert!(true);
     }
+}
+
+/// Where an element sits in scan order: a fixed 64-bit hash of its bytes, never 0 (0 is the
+/// cursor that starts and ends an iteration).
+fn scan_slot(bytes: &[u8]) -> u64 {
+    // FNV-1a with a final mix
+    let mut h: u64 = 0xcbf29ce484222325;
+    for &b in bytes {
+        h ^= b as u64;
+        h = h.wrapping_mul(0x100000001b3);
+    }
+    h ^= h >> 32;
+    h = h.wrapping_mul(0x9e3779b97f4a7c15);
+    h ^= h >> 29;
+    h.max(1)
+}
+
+/// One step of a cursor iteration. Elements are visited in the order of their scan slot and
+/// the cursor is the slot to resume from, so an element that exists during a whole iteration
+/// is returned whatever is added or removed around it (a position in a list that is rebuilt on
+/// every call shifts when earlier elements go away). Elements sharing a slot are returned
+/// together; the returned cursor is 0 when the iteration is complete.
+fn scan_window<T>(items: Vec<T>, bytes_of: impl Fn(&T) -> &[u8], cursor: u64, limit: usize) -> (u64, Vec<T>) {
+    let mut slotted: Vec<(u64, T)> = items.into_iter().map(|item| (scan_slot(bytes_of(&item)), item)).collect();
+    slotted.sort_by(|a, b| a.0.cmp(&b.0).then_with(|| bytes_of(&a.1).cmp(bytes_of(&b.1))));
+    
+    let start = slotted.partition_point(|(slot, _)| *slot < cursor);
+    let mut end = std::cmp::min(start.saturating_add(std::cmp::max(limit, 1)), slotted.len());
+    while end < slotted.len() && end > start && slotted[end].0 == slotted[end - 1].0 {
+        end += 1;
+    }
+    
+    let next_cursor = if end >= slotted.len() { 0 } else { slotted[end].0 };
+    let window = slotted.drain(start..end).map(|(_, item)| item).collect();
+    (next_cursor, window)
 }
 
 /// Simple glob pattern matching, byte-wise: keys are binary strings
